@@ -1,5 +1,6 @@
 // Unit lsmtk_recover (C02 / C08, function-local): KeyValueStore::recover_one -- what reopening does with one write-ahead log --
-// extracted entire over a ghost file system.  Proved, for every outcome of every file-system call:
+// extracted entire over a ghost file system (KeyValueStore::recover, the loop that calls it for every log of the directory,
+// and the tail of the flush thread follow further down).  Proved, for every outcome of every file-system call:
 //   * the log is moved to trash ONLY after its entries are in an SST that exists under its setsum's name AND the manifest
 //     lists that setsum (or the log held nothing): on every error path before that point the log is still where it was, so
 //     the next open replays it again -- no acknowledged write is dropped by a failed or interrupted recovery step;
@@ -232,6 +233,225 @@ fn flush_tail(flusher: &mut Flusher, builder: FlushBuilder, imm_setsum: RawSetsu
 //@ >>
 //@ end
 
-//@ min-verified 2
+// ---------------------------------------------------------------- reopening: every log of the directory
+// KeyValueStore::recover, entire: the directory is listed, every entry whose name parses as a log number is collected, and
+// recover_one (above) is called once per number.  Proved, for any directory and any outcome of any call: on Ok NO log is
+// left in the store directory, each was retired by recover_one (entries safe or none), and the sequence number handed to
+// open is the largest timestamp any of them held (0 when there was none) -- so the first write after reopening is stamped
+// above everything recovered (unit lsmtk_open starts from this number); on Err a log is either still in the directory or
+// was retired -- none is lost, the next open sees the rest.
+// ASSUMED: read_dir lists every log still in the directory, each once, under its canonical name `log.<n>` (parse_log_file
+// would also read `log.01` as 1: the store never writes such a name); <[u64]>::sort permutes.
+struct DirWorld {
+    present: ISet<u64>,    // numbers of the log files in the store directory
+    retired: ISet<u64>,    // logs recover_one moved to trash: entries safe, or none
+}
+#[verifier::external_body]
+struct DirEntryName { _p: u8 }
+uninterp spec fn log_number(n: DirEntryName) -> Option<u64>;
+// the largest timestamp log `n` holds; 0 for an empty log (recover_one's Ok value)
+uninterp spec fn log_ts(n: u64) -> u64;
+#[verifier::external_body]
+struct Listing { _p: u8 }
+impl Listing {
+    uninterp spec fn view(&self) -> Seq<Result<DirEntryName, SError>>;
+    #[verifier::external_body]
+    fn len(&self) -> (r: usize) ensures r == self@.len() { unimplemented!() }
+    #[verifier::external_body]
+    fn take(&self, i: usize) -> (r: Result<DirEntryName, SError>) requires i < self@.len() ensures r == self@[i as int] { unimplemented!() }
+}
+spec fn lists(l: Seq<Result<DirEntryName, SError>>, n: u64) -> bool {
+    exists|i: int| 0 <= i < l.len() && (#[trigger] l[i]) is Ok && log_number(l[i]->Ok_0) == Some(n)
+}
+#[verifier::external_body]
+fn parse_log_file_name(n: DirEntryName) -> (r: Option<u64>) ensures r == log_number(n) { unimplemented!() }
+#[verifier::external_body]
+fn sort_numbers(v: &mut Vec<u64>)
+    ensures final(v)@.len() == old(v)@.len(), forall|x: u64| final(v)@.contains(x) <==> old(v)@.contains(x),
+        old(v)@.no_duplicates() ==> final(v)@.no_duplicates(),
+{ unimplemented!() }
+fn max_u64(a: u64, b: u64) -> (r: u64) ensures r >= a, r >= b, r == a || r == b { if a >= b { a } else { b } }
+struct Reopen { w: Tracked<DirWorld> }
+impl Reopen {
+    #[verifier::external_body]
+    fn read_dir(&self, options: &Options) -> (r: Result<Listing, SError>)
+        ensures r is Ok ==> (forall|n: u64| self.w@.present.contains(n) <==> lists(r->Ok_0@, n))
+            && (forall|i: int, j: int| 0 <= i < j < r->Ok_0@.len() && (#[trigger] r->Ok_0@[i]) is Ok && (#[trigger] r->Ok_0@[j]) is Ok && log_number(r->Ok_0@[i]->Ok_0) is Some
+                ==> log_number(r->Ok_0@[i]->Ok_0) != log_number(r->Ok_0@[j]->Ok_0)),
+    { unimplemented!() }
+    // recover_one as proved above, seen from the directory: Ok means the log is retired; Err means it is retired or untouched
+    #[verifier::external_body]
+    fn recover_one(&mut self, options: &Options, number: u64) -> (r: Result<u64, SError>)
+        requires old(self).w@.present.contains(number),
+        ensures
+            r is Ok ==> r->Ok_0 == log_ts(number) && final(self).w@ == (DirWorld { present: old(self).w@.present.remove(number), retired: old(self).w@.retired.insert(number) }),
+            r is Err ==> final(self).w@ == old(self).w@ || final(self).w@ == (DirWorld { present: old(self).w@.present.remove(number), retired: old(self).w@.retired.insert(number) }),
+    { unimplemented!() }
+
+//@ extract lsmtk/src/kvs/mod.rs | impl KeyValueStore :: fn recover
+//@ ret r
+//@ rewrite-re X7 `fn recover\(\s*options: &LsmtkOptions,\s*mani: &mut Manifest,?\s*\)` => `fn recover(&mut self, options: &Options)`
+//@ rewrite-re X13 `for (\w+) in read_dir\(&options\.path\)\? \{` => `let listing = self.read_dir(options)?; for ei in 0..listing.len() { let \1 = listing.take(ei);`
+//@ rewrite-re X7 `parse_log_file\((\w+)\?\.file_name\(\)\)` => `parse_log_file_name(\1?)`
+//@ rewrite-re X7 `\bnumbers\.sort\(\);` => `sort_numbers(&mut numbers);`
+//@ rewrite-re X13 `for number in numbers\.into_iter\(\) \{` => `for ni in 0..numbers.len() { let number = numbers[ni];`
+//@ rewrite-re X7 `Self::recover_one\(options, number, mani\)` => `self.recover_one(options, number)`
+//@ rewrite-re? X7 `std::cmp::max\(` => `max_u64(`
+//@ rewrite-re? X4 `let mut numbers = vec!\[\];` => `let mut numbers: Vec<u64> = Vec::new();`
+//@ rewrite-re? X4 `let mut seq_no = 0;` => `let mut seq_no: u64 = 0;`
+//@ post <<
+        // no log is lost, whatever happens
+        forall|n: u64| old(self).w@.present.contains(n) ==> final(self).w@.present.contains(n) || final(self).w@.retired.contains(n),
+        // success: every log is retired, and the sequence number is the largest timestamp any of them held
+        r is Ok ==> (forall|n: u64| !final(self).w@.present.contains(n))
+            && (forall|n: u64| old(self).w@.present.contains(n) ==> final(self).w@.retired.contains(n) && r->Ok_0 >= log_ts(n))
+            && (r->Ok_0 == 0 || exists|n: u64| old(self).w@.present.contains(n) && r->Ok_0 == log_ts(n)),
+//@ >>
+//@ loop `for ei in` <<
+        invariant self.w@ == old(self).w@, /* contract-inv */
+            forall|n: u64| numbers@.contains(n) <==> lists(listing@.take(ei as int), n), /* contract-inv */
+            numbers@.no_duplicates(),
+            forall|i: int, j: int| 0 <= i < j < listing@.len() && (#[trigger] listing@[i]) is Ok && (#[trigger] listing@[j]) is Ok && log_number(listing@[i]->Ok_0) is Some
+                ==> log_number(listing@[i]->Ok_0) != log_number(listing@[j]->Ok_0),
+//@ >>
+//@ endloop `for ei in` <<
+            proof { lemma_lists_step(listing@, ei as int, old_numbers, numbers@); }
+//@ >>
+//@ startloop `for ei in` <<
+            let ghost old_numbers = numbers@;
+//@ >>
+//@ afterloop `for ei in` <<
+        proof { assert(listing@.take(listing@.len() as int) =~= listing@); }
+//@ >>
+//@ before `for ni in` <<
+        proof { lemma_in_range(numbers@, 0); }
+//@ >>
+//@ loop `for ni in` <<
+        invariant /* contract-inv */
+            numbers@.no_duplicates(),
+            forall|n: u64| #![trigger old(self).w@.present.contains(n)] #![trigger numbers@.contains(n)] old(self).w@.present.contains(n) <==> numbers@.contains(n), /* contract-inv */
+            forall|n: u64| #![trigger self.w@.present.contains(n)] #![trigger in_range(numbers@, ni as int, numbers@.len() as int, n)] self.w@.present.contains(n) <==> in_range(numbers@, ni as int, numbers@.len() as int, n), /* contract-inv */
+            forall|n: u64| #![trigger self.w@.retired.contains(n)] #![trigger old(self).w@.retired.contains(n)] #![trigger in_range(numbers@, 0, ni as int, n)] self.w@.retired.contains(n) <==> old(self).w@.retired.contains(n) || in_range(numbers@, 0, ni as int, n), /* contract-inv */
+            forall|k: int| 0 <= k < ni ==> seq_no >= log_ts(#[trigger] numbers@[k]), /* contract-inv */
+            seq_no == 0 || exists|k: int| 0 <= k < ni && seq_no == log_ts(#[trigger] numbers@[k]), /* contract-inv */
+//@ >>
+//@ startloop `for ni in` <<
+            proof { lemma_in_range(numbers@, ni as int); }
+//@ >>
+//@ afterloop `for ni in` <<
+        proof {
+            lemma_in_range(numbers@, numbers@.len() as int);
+            if seq_no != 0 {
+                let k = choose|k: int| 0 <= k < numbers@.len() && seq_no == log_ts(#[trigger] numbers@[k]);
+                assert(numbers@.contains(numbers@[k]));
+            }
+            assert forall|n: u64| old(self).w@.present.contains(n) implies seq_no >= log_ts(n) by {
+                let k = choose|k: int| 0 <= k < numbers@.len() && numbers@[k] == n;
+            }
+        }
+//@ >>
+//@ end
+}
+spec fn in_range(s: Seq<u64>, lo: int, hi: int, n: u64) -> bool { exists|k: int| lo <= k < hi && #[trigger] s[k] == n }
+proof fn lemma_in_range(s: Seq<u64>, m: int)
+    requires 0 <= m <= s.len(), s.no_duplicates(),
+    ensures
+        forall|n: u64| #![trigger s.contains(n)] #![trigger in_range(s, 0, s.len() as int, n)] s.contains(n) <==> in_range(s, 0, s.len() as int, n),
+        forall|n: u64| !in_range(s, m, m, n),
+        forall|n: u64| #![trigger s.contains(n)] #![trigger in_range(s, 0, m, n)] #![trigger in_range(s, m, s.len() as int, n)] s.contains(n) <==> in_range(s, 0, m, n) || in_range(s, m, s.len() as int, n),
+        forall|n: u64| !(in_range(s, 0, m, n) && in_range(s, m, s.len() as int, n)),
+        m < s.len() ==> (forall|n: u64| #![trigger in_range(s, m, s.len() as int, n)] #![trigger in_range(s, m + 1, s.len() as int, n)] in_range(s, m, s.len() as int, n) <==> n == s[m] || in_range(s, m + 1, s.len() as int, n)),
+        m < s.len() ==> (forall|n: u64| #![trigger in_range(s, 0, m + 1, n)] #![trigger in_range(s, 0, m, n)] in_range(s, 0, m + 1, n) <==> n == s[m] || in_range(s, 0, m, n)),
+        m < s.len() ==> !in_range(s, m + 1, s.len() as int, s[m]) && !in_range(s, 0, m, s[m]),
+{
+    assert forall|n: u64| s.contains(n) <==> in_range(s, 0, s.len() as int, n) by {
+        if s.contains(n) { let k = choose|k: int| 0 <= k < s.len() && s[k] == n; assert(s[k] == n); }
+        if in_range(s, 0, s.len() as int, n) { let k = choose|k: int| 0 <= k < s.len() && #[trigger] s[k] == n; assert(s.contains(n)); }
+    }
+    assert forall|n: u64| s.contains(n) <==> in_range(s, 0, m, n) || in_range(s, m, s.len() as int, n) by {
+        if s.contains(n) { let k = choose|k: int| 0 <= k < s.len() && s[k] == n; assert(s[k] == n); }
+        if in_range(s, 0, m, n) { let k = choose|k: int| 0 <= k < m && #[trigger] s[k] == n; assert(s.contains(n)); }
+        if in_range(s, m, s.len() as int, n) { let k = choose|k: int| m <= k < s.len() && #[trigger] s[k] == n; assert(s.contains(n)); }
+    }
+    assert forall|n: u64| !(in_range(s, 0, m, n) && in_range(s, m, s.len() as int, n)) by {
+        if in_range(s, 0, m, n) && in_range(s, m, s.len() as int, n) {
+            let a = choose|k: int| 0 <= k < m && #[trigger] s[k] == n;
+            let b = choose|k: int| m <= k < s.len() && #[trigger] s[k] == n;
+            assert(s[a] == s[b]);
+        }
+    }
+    if m < s.len() {
+        assert forall|n: u64| in_range(s, m, s.len() as int, n) <==> n == s[m] || in_range(s, m + 1, s.len() as int, n) by {
+            if in_range(s, m, s.len() as int, n) { let k = choose|k: int| m <= k < s.len() && #[trigger] s[k] == n; if k > m { assert(s[k] == n); } }
+            if in_range(s, m + 1, s.len() as int, n) { let k = choose|k: int| m + 1 <= k < s.len() && #[trigger] s[k] == n; assert(s[k] == n); }
+            if n == s[m] { assert(s[m] == n); }
+        }
+        assert forall|n: u64| in_range(s, 0, m + 1, n) <==> n == s[m] || in_range(s, 0, m, n) by {
+            if in_range(s, 0, m + 1, n) { let k = choose|k: int| 0 <= k < m + 1 && #[trigger] s[k] == n; if k < m { assert(s[k] == n); } }
+            if in_range(s, 0, m, n) { let k = choose|k: int| 0 <= k < m && #[trigger] s[k] == n; assert(s[k] == n); }
+            if n == s[m] { assert(s[m] == n); }
+        }
+        if in_range(s, m + 1, s.len() as int, s[m]) { let k = choose|k: int| m + 1 <= k < s.len() && #[trigger] s[k] == s[m]; assert(s[k] == s[m]); }
+        if in_range(s, 0, m, s[m]) { let k = choose|k: int| 0 <= k < m && #[trigger] s[k] == s[m]; assert(s[k] == s[m]); }
+    }
+}
+// what one step of the collecting loop adds: the entry's log number, if it has one
+spec fn collected(l: Seq<Result<DirEntryName, SError>>, ei: int, before: Seq<u64>) -> Seq<u64> {
+    if l[ei] is Ok && log_number(l[ei]->Ok_0) is Some { before.push(log_number(l[ei]->Ok_0)->Some_0) } else { before }
+}
+proof fn lemma_lists_step(l: Seq<Result<DirEntryName, SError>>, ei: int, before: Seq<u64>, after: Seq<u64>)
+    requires 0 <= ei < l.len(),
+        forall|n: u64| before.contains(n) <==> lists(l.take(ei), n),
+        before.no_duplicates(),
+        forall|i: int, j: int| 0 <= i < j < l.len() && (#[trigger] l[i]) is Ok && (#[trigger] l[j]) is Ok && log_number(l[i]->Ok_0) is Some
+            ==> log_number(l[i]->Ok_0) != log_number(l[j]->Ok_0),
+    // (stated as an implication, not as a precondition: a body that collects something else fails the loop invariant, not this call)
+    ensures after == collected(l, ei, before) ==> (forall|n: u64| after.contains(n) <==> lists(l.take(ei + 1), n)) && after.no_duplicates(),
+{
+    if after != collected(l, ei, before) { return; }
+    let t0 = l.take(ei);
+    let t1 = l.take(ei + 1);
+    assert(t1 =~= t0.push(l[ei]));
+    let cond = l[ei] is Ok && log_number(l[ei]->Ok_0) is Some;
+    if cond { assert(after == before.push(log_number(l[ei]->Ok_0)->Some_0)); } else { assert(after == before); }
+    assert(after.len() >= before.len());
+    assert(forall|k: int| 0 <= k < before.len() ==> after[k] == before[k]);
+    assert forall|n: u64| after.contains(n) <==> lists(t1, n) by {
+        if lists(t0, n) {
+            let i = choose|i: int| 0 <= i < t0.len() && (#[trigger] t0[i]) is Ok && log_number(t0[i]->Ok_0) == Some(n);
+            assert(t1[i] == t0[i]);
+            assert(before.contains(n));
+            let k = choose|k: int| 0 <= k < before.len() && before[k] == n;
+            assert(after[k] == n);
+        }
+        if l[ei] is Ok && log_number(l[ei]->Ok_0) == Some(n) {
+            assert(t1[ei] == l[ei]);
+            assert(after[before.len() as int] == n);
+        }
+        if lists(t1, n) {
+            let i = choose|i: int| 0 <= i < t1.len() && (#[trigger] t1[i]) is Ok && log_number(t1[i]->Ok_0) == Some(n);
+            if i < ei { assert(t0[i] == t1[i]); assert(lists(t0, n)); }
+        }
+        if after.contains(n) {
+            let k = choose|k: int| 0 <= k < after.len() && after[k] == n;
+            if k < before.len() { assert(before[k] == n); assert(before.contains(n)); }
+        }
+    }
+    if l[ei] is Ok && log_number(l[ei]->Ok_0) is Some {
+        let x = log_number(l[ei]->Ok_0)->Some_0;
+        if before.contains(x) {
+            let i = choose|i: int| 0 <= i < t0.len() && (#[trigger] t0[i]) is Ok && log_number(t0[i]->Ok_0) == Some(x);
+            assert(t0[i] == l[i]);
+            assert(false);
+        }
+        assert forall|a: int, b: int| 0 <= a < after.len() && 0 <= b < after.len() && a != b implies after[a] != after[b] by {
+            if a < before.len() && b < before.len() { assert(before[a] != before[b]); }
+            else if a < before.len() { assert(before.contains(before[a])); }
+            else { assert(before.contains(before[b])); }
+        }
+    }
+}
+
+//@ min-verified 6
 } // verus!
 fn main() {}
